@@ -10,7 +10,8 @@ PREFIX = ("C04_",)
 RULE = ("design: TLC exhausts MCDriver over the configuration lattice (maxiter x maxfun x maxls x target kind "
         "x gtol kind x callback stop x restarts incl. maxiter below the checkpoint's nit) with all C04_* invariants; "
         "code->spec: the same lattice is driven through the real solver on random problems (all families) "
-        "and every trace validated against DriverTrace (message <-> recomputed facts, counters, call counts); "
+        "and every trace validated against DriverTrace (message <-> recomputed facts, counters, call counts); spec->code: "
+        "behaviours sampled by TLC (-simulate) from the design model are realised on the real solver with scripted objectives; "
         "distinct = event-kind sequence")
 
 
@@ -79,6 +80,14 @@ def run(ctx):
     apalache_inductive(ctx)
     drivercheck.design(ctx, wide=True, restart=True)
     drivercheck.run_traces(ctx, specs(ctx), PREFIX)
+    # spec -> code: behaviours sampled by TLC from the design model, realised on the real solver (scripted objective,
+    # configuration, callback stop, target threshold, injected fault) and validated as traces
+    from harness import simreplay
+    beh = simreplay.sample_behaviours(ctx, ctx.pick(400, 4000), seed=ctx.seed + 11, depth=150, cfg="MCDriver_sim.cfg") \
+        + simreplay.sample_behaviours(ctx, ctx.pick(150, 1500), seed=ctx.seed + 12, depth=150, cfg="MCDriver_simfault.cfg")
+    sspecs = [s for s in (simreplay.to_spec(b) for b in beh) if s]
+    ctx.cov["tlc_simulated_behaviours_replayed"] = len(sspecs)
+    drivercheck.run_traces(ctx, sspecs, PREFIX, label="tlc-behaviours")
     return ctx.finish("model_checking", RULE)
 
 
